@@ -16,9 +16,18 @@ _norm = env.REAL.np_norm
 
 def dense_cores(cores):
     """Contract a list of 4-D cores; result shape (r0, m1, n1, ..., md, nd, rd)."""
-    d = np.asarray(cores[0])
+    def up(c):
+        c = np.asarray(c)
+        if c.dtype == np.float32:
+            return c.astype(np.float64)
+        if c.dtype == np.complex64:
+            return c.astype(np.complex128)
+        if c.dtype.kind in "iub":
+            return c.astype(np.float64)     # the model is a double-precision object whatever the storage dtype
+        return c
+    d = up(cores[0])
     for c in cores[1:]:
-        d = _tensordot(d, np.asarray(c), axes=([d.ndim - 1], [0]))
+        d = _tensordot(d, up(c), axes=([d.ndim - 1], [0]))
     return np.ascontiguousarray(d)
 
 
@@ -97,12 +106,12 @@ class Snapshot(object):
     def floor(self, eps=1e-12):
         return eps * max(self.scale, self.norm)
 
-    def differs(self, dense_after, tol):
+    def differs(self, dense_after, tol, eps=1e-12):
         """||after - self|| beyond tol*||self|| + eps*scale ?  Returns (bool, error)."""
         if dense_after.shape != self.dense.shape or not np.all(np.isfinite(dense_after)):
             return True, float("inf")
         err = float(_norm((dense_after - self.dense).ravel()))
-        return (not (err <= tol * self.norm + self.floor())), err
+        return (not (err <= tol * self.norm + self.floor(eps))), err
 
 
 def rel_diff(a, b):
